@@ -388,3 +388,164 @@ def ref_concrete(cfgd, chars, entities):
     out = explore_ref(cfgd, chars, [], entities, st)
     assert len(out) == 1
     return tok.normalize(out[0][1], drop_errors=True, keep_lines=False)
+
+
+# ---------------------------------------------------------------- C19 (a): meta charset extractor vs WHATWG reference
+def unit_c19(args):
+    from mirsym.interp import Machine, PathEnd, Panic
+    from mirsym.models import Tendril, deref
+    from spec import meta_charset_ref as R
+    t0 = time.time()
+    res = {"unit": "C19 %r" % (args["shape"],), "paths": 0, "queries": 0, "obligations": 0, "violations": [], "panics": [], "errors": [], "livelock": 0}
+    try:
+        # shape: list of items, each a concrete string or an int (= that many symbolic bytes)
+        chars, cons, nsym = [], [], 0
+        for it in args["shape"]:
+            if isinstance(it, int):
+                cs, cn = tok.sym_chars(it, [args.get("cls", 1)] * it, prefix="b%d_" % nsym)
+                nsym += 1
+                chars += cs
+                cons += cn
+            else:
+                chars += [ord(c) for c in it]
+        bytes_ = MD.byte_view(chars)
+        work = [[]]
+        while work:
+            d = work.pop()
+            m = Machine(_PROG, d)
+            for c in cons:
+                m.assume(c)
+            try:
+                r = m.call("extract_a_character_encoding_from_a_meta_element", [Tendril(chars)])
+                got = ("some", MD.byte_view(deref(r.f[0]).ch)) if r.variant == "Some" else ("none", None)
+            except Panic as e:
+                got = ("panic", e.msg)
+            except PathEnd:
+                work.extend(m.pending)
+                continue
+            work.extend(m.pending)
+            res["paths"] += 1
+            res["queries"] += m.nqueries
+            if got[0] == "panic":
+                rr, mo = model_of(m.pc)
+                res["panics"].append({"what": got[1], "chars": concrete_chars(chars, mo) if mo else None, "cfg": None, "lens": None, "state": "extract"})
+                continue
+            # reference under the same path condition
+            rwork = [[]]
+            while rwork:
+                rd = rwork.pop()
+                m2 = Machine(None, rd)
+                for c in cons + m.pc:
+                    m2.assume(c)
+                try:
+                    ref = R.extract(m2, bytes_)
+                except PathEnd:
+                    rwork.extend(m2.pending)
+                    continue
+                rwork.extend(m2.pending)
+                res["queries"] += m2.nqueries
+                res["obligations"] += 1
+                if (ref is None) != (got[0] == "none"):
+                    eq = False
+                elif ref is None:
+                    eq = True
+                else:
+                    eq = MD.seq_eq(list(got[1]), list(ref)) if len(got[1]) == len(ref) else False
+                    if eq is not True and eq is not False:
+                        eq = z3.simplify(eq) if not isinstance(eq, bool) else eq
+                        if z3.is_true(eq):
+                            eq = True
+                if eq is True:
+                    continue
+                rr, mo = model_of(m2.pc, [z3.Not(eq)] if eq is not False else [])
+                res["queries"] += 1
+                if rr == z3.sat:
+                    cc = concrete_chars(chars, mo)
+                    res["violations"].append({"what": "extractor differs from the WHATWG algorithm", "chars": cc, "label": "extract", "state": "extract",
+                                              "impl": got[0], "shape": args["shape"]})
+                elif rr != z3.unsat:
+                    res["errors"].append("solver unknown")
+    except Unsupported as e:
+        res["errors"].append("unsupported: " + str(e)[:300])
+    except Exception:
+        res["errors"].append("exception: " + traceback.format_exc()[-800:])
+    res["wall"] = time.time() - t0
+    res["models_used"] = sorted(MD.USED)
+    return res
+
+
+# ---------------------------------------------------------------- C10: Utf8LossyDecoder vs whole-input lossy decode
+def unit_c10(args):
+    from mirsym.interp import Machine, PathEnd, Panic, Ptr, Struct
+    from mirsym.models import BTendril
+    from spec import utf8_lossy_ref as R
+    t0 = time.time()
+    lens = args["lens"]
+    n = sum(lens)
+    res = {"unit": "C10 chunks %s" % (lens,), "paths": 0, "queries": 0, "obligations": 0, "violations": [], "panics": [], "errors": [], "livelock": 0}
+    try:
+        bs = [z3.BitVec("y%d" % i, 8) for i in range(n)]
+        for i, v in (args.get("fixed") or {}).items():
+            bs[int(i)] = v
+        work = [[]]
+        while work:
+            d = work.pop()
+            m = Machine(_PROG, d)
+            try:
+                dec = m.call("Utf8LossyDecoder::new", [Struct("Sink", [])])
+                dp = Ptr([dec], 0)
+                pos = 0
+                for l in lens:
+                    m.call("<Utf8LossyDecoder as TendrilSink>::process", [dp, BTendril(bs[pos:pos + l])])
+                    pos += l
+                m.call("<Utf8LossyDecoder as TendrilSink>::finish", [dec])
+                got = (list(m.notes.get("sink_bytes", [])), m.notes.get("sink_errors", 0))
+                outcome = "ok"
+            except Panic as e:
+                outcome = "panic: " + e.msg
+            except PathEnd:
+                work.extend(m.pending)
+                continue
+            work.extend(m.pending)
+            res["paths"] += 1
+            res["queries"] += m.nqueries
+            if outcome != "ok":
+                rr, mo = model_of(m.pc)
+                res["panics"].append({"what": outcome, "chars": [mo.eval(x, model_completion=True).as_long() if is_sym(x) else x for x in bs] if mo else None,
+                                      "cfg": None, "lens": lens, "state": "decoder"})
+                continue
+            rwork = [[]]
+            while rwork:
+                rd = rwork.pop()
+                m2 = Machine(None, rd)
+                for c in m.pc:
+                    m2.assume(c)
+                try:
+                    want, errs = R.decode(m2, bs)
+                except PathEnd:
+                    rwork.extend(m2.pending)
+                    continue
+                rwork.extend(m2.pending)
+                res["queries"] += m2.nqueries
+                res["obligations"] += 1
+                if len(want) != len(got[0]) or errs != got[1]:
+                    eq = False
+                else:
+                    eq = MD.seq_eq(got[0], want)
+                if eq is True:
+                    continue
+                rr, mo = model_of(m2.pc, [z3.Not(eq)] if eq is not False else [])
+                res["queries"] += 1
+                if rr == z3.sat:
+                    cc = [mo.eval(x, model_completion=True).as_long() if is_sym(x) else x for x in bs]
+                    res["violations"].append({"what": "decoded stream / error count differs from a whole-input lossy decode", "chars": cc, "lens": lens,
+                                              "label": "decoder", "state": "decoder", "errors_impl": got[1], "errors_ref": errs})
+                elif rr != z3.unsat:
+                    res["errors"].append("solver unknown")
+    except Unsupported as e:
+        res["errors"].append("unsupported: " + str(e)[:300])
+    except Exception:
+        res["errors"].append("exception: " + traceback.format_exc()[-800:])
+    res["wall"] = time.time() - t0
+    res["models_used"] = sorted(MD.USED)
+    return res
